@@ -479,3 +479,56 @@ def if_chain_preds(cfg, node_id):
         child = p
         p = parent(p)
     return out
+
+
+def must_conds(cfg):
+    """{node id: set of (normalised test text, branch)}: the tests every path from the entry to the
+    node has passed with that outcome (branch edges of if / while; early returns and `continue`
+    included, which the syntactic nesting does not show).  A fact dies when a name of its test
+    is assigned."""
+    import ast as _ast
+    names_of = {}
+
+    def names(t):
+        if t not in names_of:
+            try:
+                names_of[t] = {n.id for n in _ast.walk(_ast.parse(t, mode='eval')) if isinstance(n, _ast.Name)}
+            except SyntaxError:
+                names_of[t] = {'*'}
+        return names_of[t]
+    ids = sorted(cfg.reach)
+    TOP = None
+    inn = {i: TOP for i in ids}
+    inn[cfg.entry.id] = frozenset()
+
+    def out_of(i, label):
+        facts = inn[i]
+        if facts is TOP:
+            return TOP
+        nd = cfg.nodes[i]
+        defs = set(stmt_defs(nd)) | set(weak_defs(nd)) if nd.stmt is not None and nd.kind not in ('test',) else set()
+        if nd.kind == 'for':
+            defs = set(_target_names(nd.stmt.target))
+        if defs:
+            facts = frozenset(f for f in facts if not (names(f[0]) & defs) and '*' not in names(f[0]))
+        if nd.kind == 'test' and label in (True, False) and nd.stmt is not None:
+            facts = facts | {(norm(nd.stmt.test), label)}
+        return facts
+    changed = True
+    while changed:
+        changed = False
+        for i in ids:
+            if i == cfg.entry.id:
+                continue
+            acc = TOP
+            for (p, l) in cfg.nodes[i].pred:
+                if p not in cfg.reach or l == 'exc':
+                    continue
+                o = out_of(p, l)
+                if o is TOP:
+                    continue
+                acc = o if acc is TOP else (acc & o)
+            if acc is not TOP and acc != inn[i]:
+                inn[i] = acc
+                changed = True
+    return {i: (set(v) if v is not None else set()) for i, v in inn.items()}
